@@ -27,6 +27,12 @@ pub struct Align32(pub u8);
 pub struct Align64(pub u8);
 #[repr(align(64))]
 pub struct ZAlign64;
+/// a field-less enum with the default representation
+pub enum Enum3 {
+    A,
+    B,
+    C,
+}
 
 pub fn limbs(mut x: u64) -> String {
     let mut v = vec![];
@@ -48,6 +54,7 @@ pub fn type_layouts() -> Vec<(&'static str, u64, u64)> {
         t::<Packed5>("packed5"), t::<Align16>("align16"), t::<Align32>("align32"), t::<Align64>("align64"),
         t::<()>("unit"), t::<[u64; 0]>("zarr_u64"), t::<ZAlign64>("zalign64"), t::<[u16; 0]>("zarr_u16"),
         t::<GenericArray<u8, U3>>("ga_u8_3"), t::<GenericArray<u32, U5>>("ga_u32_5"), t::<GenericArray<(), U7>>("ga_unit_7"), t::<GenericArray<GenericArray<u16, U2>, U3>>("ga_ga"),
+        t::<Option<u8>>("opt_u8"), t::<Option<u16>>("opt_u16"), t::<Option<bool>>("opt_bool"), t::<Result<u8, u8>>("res_u8"), t::<Enum3>("enum3"), t::<core::cmp::Ordering>("ordering"),
         t::<core::mem::MaybeUninit<u32>>("mu_u32"), t::<String>("string"), t::<Option<Box<u8>>>("optbox"), t::<usize>("usize"),
     ]
 }
